@@ -607,6 +607,7 @@ func runC26(c *Ctx) {
 	// B3 uniqueNodes
 	un := c.Func("tun/server", "", "uniqueNodes")
 	ok3, det3, keySel := dedupLoop(un, 0)
+	keySel = lastSelector(keySel)
 	c.Ob("dedup", "uniqueNodes#loop-obligations", un.Decl.Pos(), ok3, det3)
 	dk := c.Func("spec/tun", "", "DestinationByTunnelKey")
 	usedField := ""
@@ -708,23 +709,143 @@ func runC26(c *Ctx) {
 // dedupLoop checks the obligations of a "unique list" loop over parameter src:
 // nil test precedes key extraction, seen[K(x)] test precedes the append, the same K is
 // inserted as tested, the only growth is append(list, x). Returns the key selector name.
-func dedupLoop(fn *Fn, srcParam int) (bool, string, string) {
-	var rs *ast.RangeStmt
-	ast.Inspect(fn.Body, func(n ast.Node) bool {
-		if r, ok := n.(*ast.RangeStmt); ok && rs == nil && fn.Prov(r.X) == fmt.Sprintf("param#%d", srcParam) {
-			rs = r
+// seenSet abstracts the "already emitted" set of a de-duplicating loop: a local map that is
+// written by `m[k] = v` (or by an entry of its initialising literal) and read by `m[k]` (maps
+// to bool) or by the comma-ok form. Keys are compared by provenance, so a key computed once
+// into a local, through a small key function or inline is the same key.
+type seenInsert struct {
+	at  ast.Node // the assignment, or the key/value element of the initialiser
+	key string   // provenance of the key
+	m   *types.Var
+}
+
+func (fn *Fn) seenInserts(within ast.Node) []seenInsert {
+	var out []seenInsert
+	ast.Inspect(within, func(n ast.Node) bool {
+		switch x := n.(type) {
+		case *ast.AssignStmt:
+			for i, l := range x.Lhs {
+				ix, ok := ast.Unparen(l).(*ast.IndexExpr)
+				if !ok || i >= len(x.Rhs) && len(x.Rhs) != 1 {
+					continue
+				}
+				m := fn.varOf(ix.X)
+				if m == nil {
+					continue
+				}
+				if _, isMap := m.Type().Underlying().(*types.Map); !isMap {
+					continue
+				}
+				if len(x.Rhs) == len(x.Lhs) {
+					if v, ok := fn.ConstVal(x.Rhs[i]); ok && v == "false" {
+						continue // m[k] = false is not an insertion
+					}
+				}
+				out = append(out, seenInsert{at: x, key: fn.enclosing(ix).Prov(ix.Index), m: m})
+			}
+			// m := map[K]V{k: v}
+			for i, r := range x.Rhs {
+				cl, ok := ast.Unparen(r).(*ast.CompositeLit)
+				if !ok || i >= len(x.Lhs) {
+					continue
+				}
+				m := fn.varOf(x.Lhs[i])
+				if m == nil {
+					continue
+				}
+				if _, isMap := m.Type().Underlying().(*types.Map); !isMap {
+					continue
+				}
+				for _, el := range cl.Elts {
+					if kv, ok := el.(*ast.KeyValueExpr); ok {
+						out = append(out, seenInsert{at: kv, key: fn.Prov(kv.Key), m: m})
+					}
+				}
+			}
+		case *ast.ValueSpec:
+			for i, r := range x.Values {
+				cl, ok := ast.Unparen(r).(*ast.CompositeLit)
+				if !ok || i >= len(x.Names) {
+					continue
+				}
+				m, _ := fn.Info.Defs[x.Names[i]].(*types.Var)
+				if m == nil {
+					continue
+				}
+				if _, isMap := m.Type().Underlying().(*types.Map); !isMap {
+					continue
+				}
+				for _, el := range cl.Elts {
+					if kv, ok := el.(*ast.KeyValueExpr); ok {
+						out = append(out, seenInsert{at: kv, key: fn.Prov(kv.Key), m: m})
+					}
+				}
+			}
 		}
 		return true
 	})
+	return out
+}
+
+// notInSeen: the facts establish that key (by provenance) is not in map m: m[key] known false
+// (bool-valued map), or the ok result of `_, ok := m[key]` known false.
+func (fn *Fn) notInSeen(fs *FactSet, m *types.Var, key string) bool {
+	isLookup := func(e ast.Expr) bool {
+		ix, ok := ast.Unparen(e).(*ast.IndexExpr)
+		return ok && fn.varOf(ix.X) == m && fn.enclosing(ix).Prov(ix.Index) == key
+	}
+	return fs.Cmp(func(e, tag ast.Expr, truth bool, fa *Fact) bool {
+		if tag != nil || truth {
+			return false
+		}
+		if isLookup(e) {
+			if mt, ok := m.Type().Underlying().(*types.Map); ok {
+				if b, ok := mt.Elem().Underlying().(*types.Basic); ok && b.Kind() == types.Bool {
+					return true
+				}
+			}
+			return false
+		}
+		if v := fn.varOf(e); v != nil {
+			defs := fn.defsOf(v)
+			return len(defs) == 1 && defs[0].multi && defs[0].idx == 1 && isLookup(defs[0].rhs)
+		}
+		return false
+	})
+}
+
+// lastSelector: "Identity().GetAddress()" -> "GetAddress".
+func lastSelector(sel string) string {
+	sel = strings.TrimSuffix(sel, "()")
+	if i := strings.LastIndex(sel, "."); i >= 0 {
+		sel = sel[i+1:]
+	}
+	return sel
+}
+
+// dedupLoop checks the loop obligations of a list builder that copies the distinct (by a key
+// function) non-nil elements of parameter #srcParam, in order. It returns the verdict, a
+// description and the key as a selector chain applied to the element (e.g. "ID()",
+// "Identity().GetAddress()").
+func dedupLoop(fn *Fn, srcParam int) (bool, string, string) {
+	var rs *ast.RangeStmt
+	for _, n := range shallowNodes(fn.Body) {
+		if r, ok := n.(*ast.RangeStmt); ok && rs == nil && fn.Prov(r.X) == fmt.Sprintf("param#%d", srcParam) {
+			rs = r
+		}
+	}
 	if rs == nil || rs.Value == nil {
 		return false, "range over the source list not found", ""
 	}
 	elem := fn.varOf(rs.Value)
+	elemProv := fn.Prov(rs.Value)
 	var appends []*ast.CallExpr
 	ast.Inspect(rs.Body, func(n ast.Node) bool {
 		if call, ok := n.(*ast.CallExpr); ok {
 			if id, ok := call.Fun.(*ast.Ident); ok && id.Name == "append" {
-				appends = append(appends, call)
+				if _, isB := fn.Info.Uses[id].(*types.Builtin); isB {
+					appends = append(appends, call)
+				}
 			}
 		}
 		return true
@@ -733,59 +854,52 @@ func dedupLoop(fn *Fn, srcParam int) (bool, string, string) {
 		return false, "the loop must grow the result only by append(list, element)", ""
 	}
 	ap := appends[0]
-	fs := fn.FactsAt(ap)
-	// the insertion seen[K] = true; at that point seen[K] was tested false (the insertion
-	// itself invalidates the fact, so it is read there and not at the append)
-	keyText := ""
-	okSeen := false
-	ast.Inspect(rs.Body, func(n ast.Node) bool {
-		as, ok := n.(*ast.AssignStmt)
-		if !ok || len(as.Lhs) != 1 {
-			return true
+	// the insertion of the element's key; at that point the key was tested absent (the
+	// insertion itself invalidates the fact, so it is read there and not at the append)
+	okSeen, okIns := false, false
+	keyProv := ""
+	var insAt ast.Node
+	ins := fn.seenInserts(rs.Body)
+	for _, in := range ins {
+		if !strings.HasPrefix(in.key, elemProv+".") {
+			continue
 		}
-		ix, ok := as.Lhs[0].(*ast.IndexExpr)
-		if !ok {
-			return true
-		}
-		if v, _ := fn.ConstVal(as.Rhs[0]); v != "true" {
-			return true
-		}
-		want := types_ExprString(ix)
-		if fn.FactsAt(as).Cmp(func(e, tag ast.Expr, truth bool, fa *Fact) bool {
-			tix, ok := e.(*ast.IndexExpr)
-			return ok && !truth && types_ExprString(tix) == want
-		}) {
-			okSeen = true
-			keyText = types_ExprString(ix.Index)
-		}
-		return true
-	})
-	okNil := fs.Cmp(func(e, tag ast.Expr, truth bool, fa *Fact) bool {
-		be, ok := e.(*ast.BinaryExpr)
-		return ok && !truth && be.Op == token.EQL && fn.varOf(be.X) == elem && isNilIdent(fn.Info, be.Y)
-	})
-	// insertion of the same key
-	okIns := false
-	sel := ""
-	ast.Inspect(rs.Body, func(n ast.Node) bool {
-		as, ok := n.(*ast.AssignStmt)
-		if !ok || len(as.Lhs) != 1 {
-			return true
-		}
-		if ix, ok := as.Lhs[0].(*ast.IndexExpr); ok {
-			if v, _ := fn.ConstVal(as.Rhs[0]); v == "true" && types_ExprString(ix.Index) == keyText {
-				okIns = true
-				if call, ok := ast.Unparen(ix.Index).(*ast.CallExpr); ok {
-					if se, ok := call.Fun.(*ast.SelectorExpr); ok {
-						sel = se.Sel.Name
-					}
-				}
+		okIns = true
+		keyProv, insAt = in.key, in.at
+		okSeen = fn.notInSeen(fn.FactsAt(in.at), in.m, in.key)
+	}
+	if len(ins) != 1 {
+		okIns = false // exactly one insertion per iteration: the element's key
+	}
+	// the insertion and the append belong together: neither is reachable, within one
+	// iteration, without the other having been passed or still to come
+	okPair := false
+	if insAt != nil {
+		var apStmt ast.Node = ap
+		reachedNoIns, _ := fn.Reach(nil, func(n ast.Node) bool { return containsNode(n, insAt) }, nil)
+		apWithoutIns := false
+		for _, n := range reachedNoIns {
+			if containsNode(n, apStmt) {
+				apWithoutIns = true
 			}
 		}
-		return true
+		if !apWithoutIns {
+			okPair = true // every path to the append passes the insertion
+		} else {
+			// append first: then the guard must hold at the append and the insertion follows
+			okPair = fn.notInSeen(fn.FactsAt(ap), ins[0].m, keyProv)
+		}
+	}
+	okNil := fn.FactsAt(ap).Cmp(func(e, tag ast.Expr, truth bool, fa *Fact) bool {
+		be, ok := e.(*ast.BinaryExpr)
+		if !ok || tag != nil || !isNilIdent(fn.Info, be.Y) || fn.varOf(be.X) != elem {
+			return false
+		}
+		return be.Op == token.EQL && !truth || be.Op == token.NEQ && truth
 	})
-	ok := okSeen && okNil && okIns
-	return ok, fmt.Sprintf("append guarded by nil test=%v and by seen[K]==false=%v; the tested key is the inserted key=%v (K=%s)", okNil, okSeen, okIns, keyText), sel
+	sel := strings.TrimPrefix(keyProv, elemProv+".")
+	ok := okSeen && okNil && okIns && okPair
+	return ok, fmt.Sprintf("append guarded by nil test=%v; the element's key is inserted exactly once per iteration=%v, only when tested absent=%v, on the append's path=%v (K=%s)", okNil, okIns, okSeen, okPair, sel), sel
 }
 
 // ---------------------------------------------------------------------------------------
